@@ -228,7 +228,7 @@ pub mod verif_facade {
     shuttle::thread::spawn(move || {
       log("start", 0, "", String::new());
       let r = f();
-      log("exit", 0, "", String::new());
+      log("exit", 0, "", format!("{}", now()));
       r
     })
   }
